@@ -367,7 +367,7 @@ impl CommandAnalyzer {
 
     /// Recursively extract type names from complex types
     fn extract_type_names_recursive(&self, rust_type: &str, type_names: &mut HashSet<String>) {
-        let rust_type = rust_type.trim();
+        let rust_type = TypeResolver::strip_path_qualifier(rust_type.trim());
 
         // Handle Result<T, E> - extract both T and E
         if rust_type.starts_with("Result<") {
